@@ -1,6 +1,7 @@
 SPECIFICATION Spec
 CONSTANTS
-  Addrs = {"a:1", "b:1", "c:1", "d:1"}
+  Addrs = {"a:1", "b:1", "c:1"}
+  Histories = {"fresh", "grew", "shrank"}
   Traces = {"t1", "t2"}
   MaxSends = 3
 INVARIANTS OneOwner AtMostOneHop NoSelfForward
